@@ -34,6 +34,11 @@ def cases(rng, tier, Case):
         for cfg in ("CsW", "CsWS", "nebmliat", "cfqhurHLp", mdgen.gen_cfg(rng)):
             for nest in (100, 3, 2):
                 res.append(Case("parse %s %d TREW %s" % (cfg, nest, hx(d)), "family", {"cfg": cfg, "nest": nest, "src": hx(d)}))
+    # the generic pair with nested parsing inside link labels / after escapes (fixed finding F14 and neighbours)
+    for d in ["[``%`[\\%", "[a %b\\% c](u) %", "% [x\\%](u)", "[% a `%` b %](u)", "%%[a\\%%b]%% %", "[x % y\\% z", "![% \\%](u)%"]:
+        for cfg in ("b8lep", "8bel", "nebmliatcfqhurHL8psxXS", "Cs8", "8Cs"):
+            for nest in (100, 2):
+                res.append(Case("parse %s %d TREW %s" % (cfg, nest, hx(d)), "family", {"cfg": cfg, "nest": nest, "src": hx(d)}))
     for i, d in enumerate(ins):
         if tier == "quick" and i % 4:
             continue
